@@ -1,8 +1,10 @@
 """C19 -- runner level: harness/runfam.py (shared run-family correspondence + oracle_c19 on a recording
 reporter); reporter level: harness/c19_reporters.py (the built-in reporters through the real command
-line against Model/Report.v, + independent oracle), on the same Outcome."""
+line against Model/Report.v, + independent oracle); content level: harness/c19_content.py (WHAT the tasks
+write / fail with x the encoding of the stream the report goes to: command line + independent oracle, and the
+JsonReporter class against Model/JsonText.v), on the same Outcome."""
 import json, os, subprocess, sys, tempfile, textwrap
-import common, runfam, c19_reporters
+import common, runfam, c19_reporters, c19_content
 
 INTERRUPT_DODO = textwrap.dedent("""
     import sys
@@ -88,11 +90,15 @@ def run(ctx):
     out = runfam.run_property(ctx, 'C19')
     out = c19_reporters.part_reporters(ctx, out)
     interrupt_part(ctx, out)
+    c19_content.part_content_cli(ctx, out)
+    c19_content.part_jsontext(ctx, out)
     return out
 
 
 def replay(ctx, payload):
     if isinstance(payload.get('case'), dict) and payload['case'].get('part') == 'reporters':
         return c19_reporters.replay(ctx, payload)
+    if isinstance(payload.get('case'), dict) and payload['case'].get('part') in ('content', 'jsontext'):
+        return c19_content.replay(ctx, payload)
     print(payload)
     return 0
